@@ -17,6 +17,8 @@ fn wrap(x: int)->int{ inc(x) }
 fn ge(k: int)->(int)->(bool){ (x: int)->{ x >= k } }
 fn lt(k: int)->(int)->(bool){ (x: int)->{ x < k } }
 fn shout(x: int)->int{ display(x) }
+fn walk(n: int, step: int ?= 1)->int{ if(n <= 0, 0, walk(n - step)) }
+fn walk2(n: int, acc: int ?= 0, step: int ?= 1)->int{ if(n <= 0, acc, walk2(n - step, acc + 1)) }
 '''
 
 BIG = 10 ** 9
@@ -37,6 +39,8 @@ def templates(ks):
         out.append(('nth(%d)' % k, 'count().nth(0, ge(%d))' % k, 2, 1 + 1 + (k + 1), 0, k + 1, True))
         out.append(('take_while(%d)' % k, 'count().take_while(lt(%d)).len()' % k, 2, 1 + 1 + (k + 1), 0, k + 1, True))
         out.append(('loop-in-map(%d)' % k, 'range(2).map((x: int)->{ loop(%d, 0) }).to_array()' % k, 3, 1 + 2 * 2, k, 0, True))
+        out.append(('tail-default(%d)' % k, 'walk(%d)' % k, 2, 2, k, 0, True))
+        out.append(('tail-default2(%d)' % k, 'walk2(%d)' % k, 2, 2, k, 0, True))
         out.append(('down+loop(%d)' % k, '(down(%d), loop(%d, 0))' % (k, k), k + 2, k + 2 + 1, k, 0, True))
         out.append(('down-in-map(%d)' % k, 'range(1).map((x: int)->{ down(%d) }).to_array()' % k, k + 3, 1 + 1 + (k + 1), 0, 0, True))
         out.append(('seq-eq(%d)' % k, 'range(%d) == range(%d)' % (k, k), 1, 1, 0, k, True))
